@@ -282,21 +282,31 @@ MAddChange(ch, ln) == LET j == LastNonBlank(ch) IN
 
 EditOps == {"NewBlockFull", "NewBlockEmpty", "AddBlank", "AddChange", "SetPackage", "SetVersion",
             "SetDistributions", "SetUrgency", "SetAuthor", "SetDate"}
-NewLineId(d) == 200 + Len(d.bl[1].ch)
 EditEnabled(d, op) == op \in {"NewBlockFull", "NewBlockEmpty"} \/ Len(d.bl) > 0
-EditApply(d, op) ==
-  CASE op = "NewBlockFull"  -> [d EXCEPT !.bl = <<[h |-> <<101, 102, 103, 104, 105>>, k |-> "TopOK", ch |-> <<>>, au |-> 106, da |-> 107,
-                                                    sep |-> 2, nt |-> FALSE, tr |-> <<[c |-> "Blank", id |-> 300, h |-> <<>>]>>]>> \o @]
+\* v: the argument tokens.  NewBlockFull <<package, version, distributions, urgency, rest, author, date, b>>,
+\* NewBlockEmpty <<b>> (b: the '' line that new_block adds as trailing line), AddBlank / AddChange <<line id>>,
+\* Set.. <<value>>.  All edits address the first (most recent) block.
+NewTrailing(b) == <<[c |-> "Blank", id |-> b, h |-> <<>>]>>
+EditApply(d, op, v) ==
+  CASE op = "NewBlockFull"  -> [d EXCEPT !.bl = <<[h |-> <<v[1], v[2], v[3], v[4], v[5]>>, k |-> "TopOK", ch |-> <<>>,
+                                                    au |-> v[6], da |-> v[7], sep |-> 2, nt |-> FALSE, tr |-> NewTrailing(v[8])]>> \o @]
     [] op = "NewBlockEmpty" -> [d EXCEPT !.bl = <<[h |-> NoHdr, k |-> "TopOK", ch |-> <<>>, au |-> None, da |-> None,
-                                                    sep |-> 2, nt |-> FALSE, tr |-> <<[c |-> "Blank", id |-> 300, h |-> <<>>]>>]>> \o @]
-    [] op = "AddBlank"      -> [d EXCEPT !.bl[1].ch = MAddChange(@, [c |-> "Blank", id |-> NewLineId(d), h |-> <<>>])]
-    [] op = "AddChange"     -> [d EXCEPT !.bl[1].ch = MAddChange(@, [c |-> "Change", id |-> NewLineId(d), h |-> <<>>])]
-    [] op = "SetPackage"    -> [d EXCEPT !.bl[1].h[1] = 111]
-    [] op = "SetVersion"    -> [d EXCEPT !.bl[1].h[2] = 112]
-    [] op = "SetDistributions" -> [d EXCEPT !.bl[1].h[3] = 113]
-    [] op = "SetUrgency"    -> [d EXCEPT !.bl[1].h[4] = 114]
-    [] op = "SetAuthor"     -> [d EXCEPT !.bl[1].au = 116]
-    [] op = "SetDate"       -> [d EXCEPT !.bl[1].da = 117]
+                                                    sep |-> 2, nt |-> FALSE, tr |-> NewTrailing(v[1])]>> \o @]
+    [] op = "AddBlank"      -> [d EXCEPT !.bl[1].ch = MAddChange(@, [c |-> "Blank", id |-> v[1], h |-> <<>>])]
+    [] op = "AddChange"     -> [d EXCEPT !.bl[1].ch = MAddChange(@, [c |-> "Change", id |-> v[1], h |-> <<>>])]
+    [] op = "SetPackage"    -> [d EXCEPT !.bl[1].h[1] = v[1]]
+    [] op = "SetVersion"    -> [d EXCEPT !.bl[1].h[2] = v[1]]
+    [] op = "SetDistributions" -> [d EXCEPT !.bl[1].h[3] = v[1]]
+    [] op = "SetUrgency"    -> [d EXCEPT !.bl[1].h[4] = v[1]]
+    [] op = "SetAuthor"     -> [d EXCEPT !.bl[1].au = v[1]]
+    [] op = "SetDate"       -> [d EXCEPT !.bl[1].da = v[1]]
+\* the tokens used by the bounded configuration (k: number of calls made before)
+ModelArgs(op, k) ==
+  CASE op = "NewBlockFull"  -> <<101, 102, 103, 104, 105, 106, 107, 300>>
+    [] op = "NewBlockEmpty" -> <<300>>
+    [] op \in {"AddBlank", "AddChange"} -> <<200 + k>>
+    [] op = "SetPackage" -> <<111>> [] op = "SetVersion" -> <<112>> [] op = "SetDistributions" -> <<113>>
+    [] op = "SetUrgency" -> <<114>> [] op = "SetAuthor" -> <<116>> [] op = "SetDate" -> <<117>>
 
 ----------------------------------------------------------------------------
 \* the generator automaton of deb-changelog(5)
@@ -399,7 +409,7 @@ EofStep == /\ Mode = "edit" /\ phase = "text"
            /\ UNCHANGED <<P, aea, sraised, text, gen, budget, ops>>
 EditStep(op) == /\ Mode = "edit" /\ phase = "edit" /\ Len(ops) < MaxEdits
                 /\ EditEnabled(D, op)
-                /\ D' = EditApply(D, op) /\ ops' = Append(ops, op)
+                /\ D' = EditApply(D, op, ModelArgs(op, Len(ops))) /\ ops' = Append(ops, op)
                 /\ UNCHANGED <<P, aea, sraised, text, gen, budget, phase>>
 
 Next == \/ \E c \in Classes : LConsume(c)
@@ -462,11 +472,13 @@ Struct(d) == [ini |-> Ids(d.ini),
                           sep |-> d.bl[i].sep, nt |-> d.bl[i].nt, tr |-> Ids(d.bl[i].tr)]]]
 TextClasses == [i \in 1..Len(text) |-> text[i].c]
 
+Shape(d) == <<Len(d.ini), [i \in 1..Len(d.bl) |-> <<Len(d.bl[i].ch), Len(d.bl[i].tr)>>]>>
 EmitText == (Emit /\ Mode = "text" /\ (Budget > 0 \/ WellFormedText)) =>
                PrintT(<<"CASE", ToJson([t |-> TextClasses, aea |-> aea, wf |-> WellFormedText,
                                         nw |-> Res.nw, sr |-> sraised \/ EofWarn(P) = 1,
-                                        fmt |-> Formattable(Res.doc), doc |-> Struct(Res.doc)])>>)
-EmitEdit == (Emit /\ Mode = "edit" /\ phase = "edit" /\ (Len(ops) = MaxEdits \/ ~\E op \in EditOps : EditEnabled(D, op))) =>
+                                        fmt |-> Formattable(Res.doc),
+                                        doc |-> IF WellFormedText THEN Struct(Res.doc) ELSE Shape(Res.doc)])>>)
+EmitEdit == (Emit /\ Mode = "edit" /\ phase = "edit") =>
                PrintT(<<"CASE", ToJson([t |-> TextClasses, aea |-> aea, ops |-> ops,
                                         fmt |-> Formattable(D), spec |-> Specified(D), doc |-> Struct(D)])>>)
 =============================================================================
